@@ -430,4 +430,56 @@ mutual
       rw [itemsWeight_cons]; simp only [encodeList, List.length_append]; omega
 end
 
+/-! ### sizes fit Go's uint64 -/
+
+theorem nat_take_lt (rest : List UInt8) (ll : Nat) (h8 : ll ≤ 8) : natOfBytesBE (rest.take ll) < 2 ^ 64 := by
+  have h1 := nat_lt (rest.take ll)
+  have h2 : (rest.take ll).length ≤ 8 := by simp only [List.length_take]; omega
+  have h3 : 256 ^ (rest.take ll).length ≤ 256 ^ 8 := Nat.pow_le_pow_right (by decide) h2
+  have : (256 : Nat) ^ 8 = 2 ^ 64 := by decide
+  omega
+
+theorem hdr_fits (bs : List UInt8) (isList : Bool) (n h : Nat)
+    (hd : decodeHeader bs = .ok (isList, n, h)) : n < 2 ^ 64 ∧ h ≤ 9 := by
+  cases bs with
+  | nil => simp [decodeHeader] at hd
+  | cons b rest =>
+    have hb := UInt8.toNat_lt b
+    simp only [decodeHeader] at hd
+    split at hd
+    · simp at hd; obtain ⟨_, rfl, rfl⟩ := hd; decide
+    · split at hd
+      · split at hd
+        · split at hd
+          · simp at hd
+          · split at hd
+            · simp at hd
+            · simp at hd; obtain ⟨_, rfl, rfl⟩ := hd; decide
+        · simp at hd; obtain ⟨_, rfl, rfl⟩ := hd; omega
+      · split at hd
+        · split at hd
+          · simp at hd
+          · split at hd
+            · simp at hd
+            · split at hd
+              · simp at hd
+              · split at hd
+                · simp at hd
+                · simp at hd
+                  obtain ⟨_, rfl, rfl⟩ := hd
+                  exact ⟨nat_take_lt rest _ (by omega), by omega⟩
+        · split at hd
+          · simp at hd; obtain ⟨_, rfl, rfl⟩ := hd; omega
+          · split at hd
+            · simp at hd
+            · split at hd
+              · simp at hd
+              · split at hd
+                · simp at hd
+                · split at hd
+                  · simp at hd
+                  · simp at hd
+                    obtain ⟨_, rfl, rfl⟩ := hd
+                    exact ⟨nat_take_lt rest _ (by omega), by omega⟩
+
 end YouVerif.C14
